@@ -1,3 +1,5 @@
 import OsyrisProofs.C02
 import OsyrisProofs.C06
+import OsyrisProofs.C07
+import OsyrisProofs.C08
 import OsyrisProofs.C20
